@@ -515,6 +515,49 @@ func init() {
 	reg("(time.Duration).String", func(ex *Exec, a []Val) Val { return StrV{Opaque: true, Tag: "duration"} })
 	reg("(time.Duration).Seconds", func(ex *Exec, a []Val) Val { return OpaqueV{"float"} })
 
+	reg("github.com/cosmos/cosmos-sdk/types/address.MustLengthPrefix", func(ex *Exec, a []Val) Val {
+		bs := ex.bytesOf(a[0])
+		if len(bs) == 0 {
+			return a[0]
+		}
+		if len(bs) > 255 {
+			ex.goPanic("address length should be max 255 bytes")
+		}
+		return ex.mkBytes(append([]*Term{ex.tf.BVu(uint64(len(bs)), 8)}, bs...))
+	})
+	reg("github.com/cosmos/cosmos-sdk/types/address.LengthPrefix", func(ex *Exec, a []Val) Val {
+		bs := ex.bytesOf(a[0])
+		if len(bs) == 0 {
+			return TupleV{a[0], IfaceV{}}
+		}
+		if len(bs) > 255 {
+			return TupleV{SliceV{Nil: true}, ex.newErr("sdk/addr", "address too long")}
+		}
+		return TupleV{ex.mkBytes(append([]*Term{ex.tf.BVu(uint64(len(bs)), 8)}, bs...)), IfaceV{}}
+	})
+	reg(T+"ValidateDenom", func(ex *Exec, a []Val) Val {
+		d := ex.mustConcreteStr(a[0], "ValidateDenom")
+		ok := len(d) >= 3 && len(d) <= 128
+		for i := 0; ok && i < len(d); i++ {
+			c := d[i]
+			alpha := (c >= 'a' && c <= 'z') || (c >= 'A' && c <= 'Z')
+			if i == 0 {
+				ok = alpha
+			} else {
+				ok = alpha || (c >= '0' && c <= '9') || strings.IndexByte("/:._-", c) >= 0
+			}
+		}
+		if !ok {
+			return ex.newErr("sdk/denom", "invalid denom: "+d)
+		}
+		return IfaceV{}
+	})
+
+	for _, tn := range []string{"DecCoins", "DecCoin", "Coins", "Coin"} {
+		tn := tn
+		reg("("+T+tn+").String", func(ex *Exec, a []Val) Val { return StrV{Opaque: true, Tag: tn + "-string"} })
+	}
+
 	// ---------- events (pure constructors) ----------
 	reg(T+"NewEvent", func(ex *Exec, a []Val) Val { return ex.zeroOfResult(T + "NewEvent") })
 	reg(T+"NewAttribute", func(ex *Exec, a []Val) Val { return ex.zeroOfResult(T + "NewAttribute") })
